@@ -206,6 +206,8 @@ class Executor:
         self.lemma_mode = False
         self.assert_count = 0
         self.named_ghosts = {}
+        self.pc_atoms = set()
+        self.base_len = None
         from . import prelude
         self.prelude = prelude
         self.builtins = prelude.make_builtins(self)
@@ -239,7 +241,22 @@ class Executor:
         if z3.is_false(f):
             raise PathEnd()
         if not z3.is_true(f):
-            self.pc.append(f)
+            # top-level conjunctions are stored conjunct by conjunct (relevance
+            # filtering and frame reasoning work per conjunct)
+            stack = [f]
+            flat = []
+            while stack:
+                g = stack.pop()
+                if z3.is_and(g):
+                    stack.extend(reversed(g.children()))
+                elif z3.is_false(g):
+                    raise PathEnd()
+                elif not z3.is_true(g):
+                    flat.append(g)
+            for g in flat:
+                if g.get_id() not in self.pc_atoms:
+                    self.pc.append(g)
+                    self.pc_atoms.add(g.get_id())
 
     def oblige(self, name, goal, kind='assert', role='aux', info=None, assume_after=True):
         if isinstance(goal, bool):
@@ -247,6 +264,7 @@ class Executor:
         where = getattr(self.cur_node, 'lineno', 0)
         ob = Obligation(name, kind, role, self.pc, goal, where,
                         [d[0] for d in self.decisions], info)
+        ob.base_len = self.base_len if self.base_len is not None else len(self.pc)
         self.obligations.append(ob)
         # after checking, the fact may be used on the rest of the path
         if assume_after:
@@ -352,8 +370,8 @@ class Executor:
         declared) is a failed ownership obligation, not a checker error."""
         try:
             return thunk()
-        except (OutOfSubset, AssertionError) as e:
-            if isinstance(e, OutOfSubset) and 'sort mismatch' not in str(e) \
+        except OutOfSubset as e:
+            if 'sort mismatch' not in str(e) \
                     and 'cannot coerce' not in str(e) and 'cannot pack' not in str(e):
                 raise
             self.oblige('%s:stored-value-sort[%s]' % (self.fn_name, what), z3.BoolVal(False),
@@ -373,7 +391,10 @@ class Executor:
         v = self.adapt(v, T)
         leaves = self.heap_leaves(sn, field, T)
         lv = T.to_leaves(v)
-        self.heap[(sn, field)] = [z3.Store(a, o, l) for a, l in zip(leaves, lv)]
+        # keep heap terms flat: store-over-store / select-over-store are rewritten
+        # away here (deeply nested Store chains make the solver much less robust)
+        self.heap[(sn, field)] = [z3.simplify(z3.Store(a, o, z3.simplify(l)))
+                                  for a, l in zip(leaves, lv)]
 
     def write_field(self, obj_t, field, v):
         sn = obj_t.sort().name()
@@ -859,6 +880,11 @@ class Executor:
         return Closure(node, fr, fr.module)
 
     def ev_IfExp(self, node, fr):
+        if self.spec_mode:
+            c = self.truth(self.ev(node.test, fr))
+            if isinstance(c, bool):
+                return self.ev(node.body if c else node.orelse, fr)
+            return ite(c, self.ev(node.body, fr), self.ev(node.orelse, fr))
         if self.test(self.ev(node.test, fr)):
             return self.ev(node.body, fr)
         return self.ev(node.orelse, fr)
